@@ -222,3 +222,177 @@ Corollary script_emit_at_most_once tbl pass_fuel fuel w s args i :
   exists l, w_trace (fst (sig_emit (script tbl pass_fuel fuel) w s args)) = l ++ w_trace w /\ NoDup (dkeys i l).
 Proof. apply emit_at_most_once, script_good. Qed.
 
+
+(* ---------------------------------------------------------------------------------------------- *)
+(* C01: with slot bodies that do not call back into the library, an emission invokes EXACTLY the connected,
+   unblocked connections, once each, in table order, with the adapted argument values; a deferred connection
+   gets exactly one queued invocation (its evaluator's hook is the observable) *)
+
+Definition quietR : world -> nat -> res := fun w _ => ok w.
+
+Lemma quietR_good : good quietR.
+Proof. intros w sid Hw. split; [assumption|apply wle_on_refl]. Qed.
+
+Definition fire_events (i : nat) (args : list Z) (p : gidx * conn) : list event :=
+  let '(k, c) := p in
+  if c_blocked c then [] else
+  match c_kind c with
+  | KPlain => [EvSlot (Some (i, k)) true (c_label c) (adapt (c_arity c) (c_bound c) args)]
+  | KReflective _ => [EvSlot (Some (i, k)) true (c_label c) args]
+  | KSingle => [EvSlot (Some (i, k)) true (c_label c) args]
+  | KDeferred e => [EvAdded e]
+  end.
+
+(* the unblocked deferred connections at the given positions have a live evaluator *)
+Definition deferred_ok (w : world) (sl : list (option (N * conn))) (idxs : list nat) : Prop :=
+  forall x g c e, In x idxs -> nth_error sl x = Some (Some (g, c)) -> c_blocked c = false ->
+                  c_kind c = KDeferred e -> ev_alive w e = true.
+
+Lemma slot_entries_ext {T} (sl sl' : list (option (N * T))) idxs :
+  (forall x, In x idxs -> nth_error sl' x = nth_error sl x) -> slot_entries sl' idxs = slot_entries sl idxs.
+Proof.
+  induction idxs as [|x r IH]; intros H; [reflexivity|]. cbn [slot_entries flat_map].
+  rewrite (H x (or_introl eq_refl)). f_equal. apply IH. intros y Hy; apply H; right; assumption.
+Qed.
+
+Lemma fire_quiet w i m x g c args :
+  winv w -> get_impl w i = Some m -> i_emitting m = true ->
+  nth_error (g_slots (i_conns m)) x = Some (Some (g, c)) -> c_blocked c = false ->
+  (forall e, c_kind c = KDeferred e -> ev_alive w e = true) ->
+  let k := {| gi_index := x; gi_gen := g |} in
+  exists w1 m1, fire quietR w i k c args = (w1, None) /\
+    w_trace w1 = rev (fire_events i args (k, c)) ++ w_trace w /\
+    get_impl w1 i = Some m1 /\ i_emitting m1 = true /\
+    length (g_slots (i_conns m1)) = length (g_slots (i_conns m)) /\
+    (forall y, y <> x -> nth_error (g_slots (i_conns m1)) y = nth_error (g_slots (i_conns m)) y) /\
+    (forall e, ev_alive w1 e = ev_alive w e).
+Proof.
+  intros Hw Hm Hem Hs Hb Hdef k.
+  pose proof (Hw _ _ Hm) as (Hwf & _ & _ & Halv).
+  assert (Hg : g_get (i_conns m) k = Some c) by (apply get_slot; cbn; assumption).
+  unfold fire, fire_events. rewrite Hb. destruct (c_kind c) eqn:Hk.
+  - exists (log (EvSlot (Some (i, k)) true (c_label c) (adapt (c_arity c) (c_bound c) args)) w), m.
+    repeat split; auto.
+  - eexists _, m. split; [unfold invoke_slot, quietR; reflexivity|]. repeat split; auto.
+  - (* single shot: the entry is marked, then the slot runs *)
+    assert (Hcl : checked_lock w {| h_impl := Some i; h_id := Some k |} = Some (i, k)).
+    { unfold checked_lock, lock; cbn. rewrite Hm, (Halv Hem), Hm, Hg. reflexivity. }
+    unfold handle_disconnect. rewrite Hcl. unfold impl_disconnect. rewrite Hm, Hg, Hem.
+    destruct (update_spec _ k (conn_set_tbd c) Hwf) as (_ & _ & Hsz & _ & Hoth & _).
+    eexists _, _. split; [unfold invoke_slot, quietR; reflexivity|].
+    split; [reflexivity|]. split; [cbn [log]; eapply get_put_same; eassumption|].
+    split; [reflexivity|]. split; [exact Hsz|]. split; [|reflexivity].
+    intros y Hy. cbn [i_conns impl_with_flags impl_with_conns]. apply Hoth. cbn. auto.
+  - rewrite (Hdef ev eq_refl). unfold ev_enqueue.
+    pose proof (Hdef ev eq_refl) as Hal. unfold ev_alive in Hal.
+    destruct (lookup (w_evs w) ev) as [s|] eqn:Hev; [|discriminate].
+    eexists _, m. split; [reflexivity|]. split; [reflexivity|]. repeat split; auto.
+    intros e0. unfold ev_alive. cbn [log set_evs w_evs]. rewrite lookup_bind.
+    destruct (Nat.eqb_spec e0 ev) as [->|Hne]; [rewrite Hev|]; reflexivity.
+Qed.
+
+Lemma walk_quiet i args : forall idxs w m,
+  winv w -> get_impl w i = Some m -> i_emitting m = true -> NoDup idxs ->
+  deferred_ok w (g_slots (i_conns m)) idxs ->
+  exists w' m', walk quietR w i args idxs = (w', None) /\
+    w_trace w' = rev (flat_map (fire_events i args) (slot_entries (g_slots (i_conns m)) idxs)) ++ w_trace w /\
+    get_impl w' i = Some m' /\ i_emitting m' = true /\
+    length (g_slots (i_conns m')) = length (g_slots (i_conns m)).
+Proof.
+  induction idxs as [|x r IH]; intros w m Hw Hm Hem Hnd Hdef; cbn [walk].
+  - exists w, m. repeat split; auto.
+  - inversion Hnd as [|? ? Hx Hr]; subst. rewrite Hm.
+    pose proof (Hw _ _ Hm) as (Hwf & _).
+    assert (Hdef_r : deferred_ok w (g_slots (i_conns m)) r).
+    { intros y g c e Hy. apply Hdef. right; assumption. }
+    assert (Hse : slot_entries (g_slots (i_conns m)) (x :: r) =
+                  (match nth_error (g_slots (i_conns m)) x with
+                   | Some (Some (g, v)) => [({| gi_index := x; gi_gen := g |}, v)]
+                   | _ => [] end) ++ slot_entries (g_slots (i_conns m)) r) by reflexivity.
+    rewrite Hse. clear Hse. rewrite flat_map_app.
+    destruct (nth_error (g_slots (i_conns m)) x) as [[[g c]|]|] eqn:Hs.
+    + assert (Hix : g_indexAt (i_conns m) x = Some {| gi_index := x; gi_gen := g |}).
+      { apply (indexAt_slot _ _ _ Hwf). exists c; cbn; auto. }
+      assert (Hg : g_get (i_conns m) {| gi_index := x; gi_gen := g |} = Some c) by (apply get_slot; cbn; assumption).
+      rewrite Hix, Hg. cbn [flat_map]. rewrite app_nil_r.
+      destruct (c_blocked c) eqn:Hb.
+      * destruct (IH w m Hw Hm Hem Hr Hdef_r) as (w' & m' & Hwalk & Htr & Hm' & Hem' & Hlen).
+        exists w', m'. split; [assumption|]. split; [|auto].
+        rewrite Htr. unfold fire_events at 2. rewrite Hb. reflexivity.
+      * assert (Hd1 : forall e, c_kind c = KDeferred e -> ev_alive w e = true).
+        { intros e He. eapply (Hdef x g c e); [left; reflexivity|assumption|assumption|assumption]. }
+        destruct (fire_quiet w i m x g c args Hw Hm Hem Hs Hb Hd1) as (w1 & m1 & Hf & Ht1 & Hm1 & Hem1 & Hl1 & Ho1 & Ha1).
+        rewrite Hf.
+        assert (Hw1 : winv w1).
+        { pose proof (fire_ok quietR quietR_good w i {| gi_index := x; gi_gen := g |} c args Hw) as [H _].
+          rewrite Hf in H. exact H. }
+        assert (Hdef1 : deferred_ok w1 (g_slots (i_conns m1)) r).
+        { intros y g' c' e Hy Hs' Hb' Hk'. rewrite Ha1. rewrite Ho1 in Hs' by (intros ->; contradiction).
+          eapply Hdef_r; eassumption. }
+        destruct (IH w1 m1 Hw1 Hm1 Hem1 Hr Hdef1) as (w' & m' & Hwalk & Htr & Hm' & Hem' & Hlen).
+        exists w', m'. split; [assumption|]. split; [|repeat split; auto; congruence].
+        rewrite Htr, Ht1.
+        rewrite (slot_entries_ext (g_slots (i_conns m)) (g_slots (i_conns m1)) r)
+          by (intros y Hy; apply Ho1; intros ->; contradiction).
+        rewrite rev_app_distr, <- app_assoc. reflexivity.
+    + unfold g_indexAt. rewrite Hs. cbn [flat_map app].
+      destruct (IH w m Hw Hm Hem Hr Hdef_r) as (w' & m' & Hwalk & Htr & Hm' & Hem' & Hlen).
+      exists w', m'. repeat split; auto.
+    + unfold g_indexAt. rewrite Hs. cbn [flat_map app].
+      destruct (IH w m Hw Hm Hem Hr Hdef_r) as (w' & m' & Hwalk & Htr & Hm' & Hem' & Hlen).
+      exists w', m'. repeat split; auto.
+Qed.
+
+(* the emission as a whole *)
+Theorem emit_exact w s args i m :
+  winv w -> lookup (w_sigs w) s = Some (Some i) -> get_impl w i = Some m -> i_emitting m = false ->
+  deferred_ok w (g_slots (i_conns m)) (seq 0 (g_size (i_conns m))) ->
+  snd (sig_emit quietR w s args) = None /\
+  w_trace (fst (sig_emit quietR w s args)) = rev (flat_map (fire_events i args) (g_live (i_conns m))) ++ w_trace w.
+Proof.
+  intros Hw Hs Hm Hem Hdef. unfold sig_emit. rewrite Hs, Hm, Hem.
+  set (m1 := impl_with_owner (impl_with_flags m true (i_dde m)) (i_owned m) true).
+  set (w1 := put_impl w i m1).
+  assert (Hw1 : winv w1) by (apply winv_put; [assumption|apply impl_ok_emit_start; eapply Hw; eassumption]).
+  assert (Hg1 : get_impl w1 i = Some m1) by (eapply get_put_same; eassumption).
+  destruct (walk_quiet i args (seq 0 (g_size (i_conns m))) w1 m1 Hw1 Hg1 eq_refl (seq_NoDup _ _) Hdef)
+    as (w' & m' & Hwalk & Htr & _).
+  rewrite Hwalk. cbn [fst snd]. split; [reflexivity|].
+  rewrite trace_finish_emit, Htr. cbn [i_conns m1 impl_with_owner impl_with_flags].
+  rewrite (live_slots _ (proj1 (Hw _ _ Hm))). reflexivity.
+Qed.
+
+(* sig_emit depends on the slot bodies only through their behaviour *)
+Lemma walk_ext R R' i args : (forall w sid, R w sid = R' w sid) ->
+  forall idxs w, walk R w i args idxs = walk R' w i args idxs.
+Proof.
+  intros HRR. induction idxs as [|x r IH]; intros w; cbn [walk]; [reflexivity|].
+  destruct (get_impl w i) as [m|]; [|reflexivity].
+  destruct (g_indexAt (i_conns m) x) as [k|]; [|apply IH].
+  destruct (g_get (i_conns m) k) as [c|]; [|apply IH].
+  destruct (c_blocked c); [apply IH|].
+  assert (Hf : fire R w i k c args = fire R' w i k c args).
+  { unfold fire, invoke_slot. destruct (c_kind c); try rewrite HRR; reflexivity. }
+  rewrite Hf. destruct (fire R' w i k c args) as [w' [e|]]; [reflexivity|apply IH].
+Qed.
+
+Lemma sig_emit_ext R R' w s args : (forall w sid, R w sid = R' w sid) -> sig_emit R w s args = sig_emit R' w s args.
+Proof.
+  intros HRR. unfold sig_emit. destruct (lookup (w_sigs w) s) as [[i|]|]; try reflexivity.
+  destruct (get_impl w i) as [m|]; [|reflexivity]. destruct (i_emitting m); [reflexivity|].
+  rewrite (walk_ext R R' i args HRR). reflexivity.
+Qed.
+
+(* for the closed interpreter: every table whose slot bodies are empty, every positive fuel *)
+Corollary script_emit_exact tbl pass_fuel fuel w s args i m :
+  (forall sid, tbl sid = []) ->
+  winv w -> lookup (w_sigs w) s = Some (Some i) -> get_impl w i = Some m -> i_emitting m = false ->
+  deferred_ok w (g_slots (i_conns m)) (seq 0 (g_size (i_conns m))) ->
+  snd (sig_emit (script tbl pass_fuel (S fuel)) w s args) = None /\
+  w_trace (fst (sig_emit (script tbl pass_fuel (S fuel)) w s args)) =
+    rev (flat_map (fire_events i args) (g_live (i_conns m))) ++ w_trace w.
+Proof.
+  intros Hq. rewrite (sig_emit_ext (script tbl pass_fuel (S fuel)) quietR).
+  - apply emit_exact.
+  - intros w0 sid. cbn [script]. rewrite Hq. reflexivity.
+Qed.
